@@ -22,8 +22,17 @@ type receivePayloadQueue struct {
 func newReceivePayloadQueue(maxTSNOffset uint32) *receivePayloadQueue {
 	maxTSNOffset = ((maxTSNOffset + 63) / 64) * 64
 
+	// The bitmask is a ring indexed by (TSN/64) modulo its length. That index is
+	// only continuous across the 2^32 TSN wrap when the length divides 2^26, so
+	// the ring (not the window) is rounded up to a power of two. Otherwise two
+	// TSNs of one window that straddles the wrap can share a bit.
+	words := uint32(1)
+	for words < maxTSNOffset/64 {
+		words <<= 1
+	}
+
 	return &receivePayloadQueue{
-		tsnBitmask:   make([]uint64, maxTSNOffset/64),
+		tsnBitmask:   make([]uint64, words),
 		maxTSNOffset: maxTSNOffset,
 	}
 }
